@@ -79,15 +79,46 @@ theorem vis_min_count (thr : Option α) (toKeep : Nat) (ls out : List (Pt α)) (
     (h : visSimplify thr toKeep ls area = .ok out) :
     min ls.length (visToKeep toKeep ls area) ≤ out.length := vis_min_count' thr toKeep ls out area h
 
-/-- The default minimum counts. -/
+/-- The default minimum counts, exactly: 2 for a line, 4 for a CLOSED ring, 3 for an open ring (a ring
+    is closed iff Go's `ls[0] == ls[len(ls)-1]`); a requested count is taken as it is.  (`visToKeep` is
+    only reached with 2 or more vertices; for the empty list only "3 or 4" can be said, `0 == 0` not
+    being a law of an arbitrary arithmetic.) -/
 theorem vis_default_counts (ls : List (Pt α)) :
-    visToKeep 0 ls false = 2 ∧ (visToKeep 0 ls true = 3 ∨ visToKeep 0 ls true = 4) ∧
-    ∀ k, k ≠ 0 → ∀ area, visToKeep k ls area = k := vis_default_counts' ls
+    visToKeep 0 ls false = 2 ∧
+    (ls ≠ [] → (Closed ls → visToKeep 0 ls true = 4) ∧ (¬ Closed ls → visToKeep 0 ls true = 3)) ∧
+    (visToKeep 0 ls true = 3 ∨ visToKeep 0 ls true = 4) ∧
+    ∀ k, k ≠ 0 → ∀ area, visToKeep k ls area = k := vis_default_counts_exact' ls
 
 /-- keep-N (`VisvalingamKeep`, threshold `+Inf`) returns exactly N vertices when the input is longer. -/
 theorem vis_keep_exact (toKeep : Nat) (ls out : List (Pt α)) (area : Bool)
     (h : visSimplify none toKeep ls area = .ok out) (hk : visToKeep toKeep ls area < ls.length) :
     out.length = visToKeep toKeep ls area := vis_keep_exact' toKeep ls out area h hk
+
+/-! ### the same clauses at the typed entry points (`lineString s ls = runSimplify s ls false`,
+    `ring s r = runSimplify s r true`: `runSimplify` returns inputs of ≤ 2 points untouched) -/
+
+theorem radial_spacing_run (df : Pt α → Pt α → α) (t : α) (ls out : List (Pt α)) (area : Bool)
+    (h : runSimplify (radialS df t) ls area = .ok out) :
+    ∀ a b, Adjacent out.dropLast a b → t < df a b := radial_spacing_run' df t ls out area h
+
+theorem vis_min_count_run (thr : Option α) (toKeep : Nat) (ls out : List (Pt α)) (area : Bool)
+    (h : runSimplify (visS thr toKeep) ls area = .ok out) :
+    min ls.length (visToKeep toKeep ls area) ≤ out.length := vis_min_count_run' thr toKeep ls out area h
+
+/-- keep-N at the entry point, for every N ≥ 2 (N = 1 on a 2-point line is returned untouched) -/
+theorem vis_keep_exact_run (toKeep : Nat) (ls out : List (Pt α)) (area : Bool)
+    (h : runSimplify (visS none toKeep) ls area = .ok out) (h2 : 2 ≤ visToKeep toKeep ls area)
+    (hk : visToKeep toKeep ls area < ls.length) :
+    out.length = visToKeep toKeep ls area := vis_keep_exact_run' toKeep ls out area h h2 hk
+
+/-- `Ring` with the default count: a closed ring never goes below 4 vertices, an open one never below 3 -/
+theorem vis_ring_default_min (thr : Option α) (ls out : List (Pt α)) (h : ring (visS thr 0) ls = .ok out) :
+    (Closed ls → min ls.length 4 ≤ out.length) ∧ (¬ Closed ls → min ls.length 3 ≤ out.length) :=
+  vis_ring_default_min' thr ls out h
+
+/-- `LineString` with the default count: never below 2 vertices -/
+theorem vis_line_default_min (thr : Option α) (ls out : List (Pt α)) (h : lineString (visS thr 0) ls = .ok out) :
+    min ls.length 2 ≤ out.length := vis_line_default_min' thr ls out h
 
 /-! ### helpers.go -/
 
@@ -116,6 +147,29 @@ theorem multiPolygon_good (s : Simplifier α) (hs : GoodS s) (mp out : List (Lis
     ∃ kept, kept.Sublist mp ∧ List.Forall₂ ValidPolygon kept out ∧
       ∀ pg ∈ out, ∃ r0 rs, pg = r0 :: rs ∧ 2 < r0.length := multiPolygon_good' s hs mp out h
 
+/-- `MultiLineString` runs every line. -/
+theorem multiLineString_exact (s : Simplifier α) (mls out : List (List (Pt α))) (h : multiLineString s mls = .ok out) :
+    List.Forall₂ (fun l l' => runSimplify s l false = .ok l') mls out := multiLineString_exact' s mls out h
+
+/-- `Polygon`, exactly: EVERY ring is run; the output is the results of the first ring and of every
+    later ring that still has more than 2 points, in order (kept ⇔ i = 0 ∨ 2 < len). -/
+theorem polygon_exact (s : Simplifier α) (p out : List (List (Pt α))) (h : polygon s p = .ok out) :
+    ∃ rs, List.Forall₂ (fun r r' => runSimplify s r true = .ok r') p rs ∧ out = keepRings rs :=
+  polygon_exact' s p out h
+
+/-- `MultiPolygon`, exactly: EVERY polygon is run; the output is the results that have a first ring of
+    more than 2 points, in order. -/
+theorem multiPolygon_exact (s : Simplifier α) (mp out : List (List (List (Pt α)))) (h : multiPolygon s mp = .ok out) :
+    ∃ ps, List.Forall₂ (fun p p' => polygon s p = .ok p') mp ps ∧ out = keepPolys ps :=
+  multiPolygon_exact' s mp out h
+
+/-- The generic `Simplify` on every kind and any collection depth (induction over `Geom`): each member
+    vertex list is the result of `runSimplify` on the corresponding input list and a valid simplification
+    of it (`RunRel`); rings / polygons stay or vanish exactly by `keepRings` / `keepPolys`; collections
+    keep their length; empty results are nil interfaces. -/
+theorem simplifyG_good (s : Simplifier α) (hs : GoodS s) (g : Geom α) (o : OGeom α) (h : simplifyG s g = .ok o) :
+    ValidOut (RunRel s) g o := simplifyG_good' s hs g o h
+
 /-- The generic `Simplify` is the typed method followed by the "empty ⇒ nil interface" rule. -/
 theorem wrappers_agree (s : Simplifier α) :
     (∀ l, simplifyG s (.lineString l) = wrapLen .lineString (lineString s l)) ∧
@@ -139,6 +193,39 @@ theorem simplify_total (s : Simplifier α) (hs : ∀ ls area, 2 < ls.length → 
 /-- Radial, through the generic entry point: total for every value and EVERY arithmetic (hence also in float64). -/
 theorem radial_simplify_total (df : Pt α → Pt α → α) (t : α) (v : GVal α) :
     (simplifyV (radialS df t) v).isOk = true := radial_simplify_total' df t v
+
+/-! ### Orb/SimplifyExt.lean: what the driver runs beyond Orb/Simplify.lean -/
+
+/-- The parametrised Visvalingam (end-item area, `math.Max`, and the guard of the repaired code: a popped
+    end item is skipped) at the model's parameters is the model wherever the model does not panic. -/
+theorem visSimplifyP_eq (thr : Option α) (toKeep : Nat) (ls : List (Pt α)) (area : Bool) (res : R (List (Pt α)))
+    (h : visSimplify thr toKeep ls area = res) (hnp : ∀ w, res ≠ .panic w) :
+    visSimplifyP none aMax thr toKeep ls area = res :=
+  visSimplifyP_eq' thr toKeep ls area res h hnp
+
+/-- Values with nil members: a non-collection member goes through `simplifyG`, … -/
+theorem simplifyO_geom (s : Simplifier α) (g : Geom α) : simplifyO s (.geom g) = simplifyG s g :=
+  simplifyO_geom' s g
+
+/-- … and a collection without nil members is `simplifyG`'s collection. -/
+theorem simplifyO_coll_geoms (s : Simplifier α) (gs : List (Geom α)) :
+    simplifyO s (.coll (gs.map .geom)) = simplifyG s (.collection gs) := simplifyO_coll_geoms' s gs
+
+/-- No panic with nil members (nil interfaces, nil multi points) at any depth. -/
+theorem simplifyO_total (s : Simplifier α) (hs : ∀ ls area, 2 < ls.length → (s ls area).isOk = true)
+    (v : OGeom α) : (simplifyO s v).isOk = true := simplifyO_total' s hs v
+
+/-- `mvt.Layer.Simplify`: the kept features are exactly those whose result is not a nil interface, in
+    order, each with its own result. -/
+theorem layerSimplify_exact {β : Type} (s : Simplifier α) (fs out : List (β × OGeom α))
+    (h : layerSimplify s fs = .ok out) :
+    ∃ gs, List.Forall₂ (fun f g' => simplifyO s f.2 = .ok g') fs gs ∧
+      out = ((fs.map Prod.fst).zip gs).filter (fun p => !p.2.isNil) := layerSimplify_exact' s fs out h
+
+/-- `mvt.Layers.Simplify` does not panic. -/
+theorem layersSimplify_total {β : Type} (s : Simplifier α)
+    (hs : ∀ ls area, 2 < ls.length → (s ls area).isOk = true) (ls : List (List (β × OGeom α))) :
+    (layersSimplify s ls).isOk = true := layersSimplify_total' s hs ls
 
 end anyArithmetic
 
@@ -180,6 +267,34 @@ theorem dp_idempotent (t : α) (ls out : List (Pt α)) (h : dpSimplify t ls = .o
 theorem dp_nested (t₁ t₂ : α) (h0 : 0 ≤ t₁) (h12 : t₁ ≤ t₂) (ls o₁ o₂ : List (Pt α))
     (h₁ : dpSimplify t₁ ls = .ok o₁) (h₂ : dpSimplify t₂ ls = .ok o₂) : o₂.Sublist o₁ :=
   dp_nested' t₁ t₂ h0 h12 ls o₁ o₂ h₁ h₂
+
+/-! ### Douglas-Peucker and Visvalingam at the typed entry points -/
+
+theorem dp_error_bound_run (t : α) (ls out : List (Pt α)) (area : Bool)
+    (h : runSimplify (dpS t) ls area = .ok out) :
+    ∃ idx : List Nat, idx.Pairwise (· < ·) ∧ (∀ i ∈ idx, i < ls.length) ∧
+      out = idx.filterMap (fun i => ls[i]?) ∧
+      ∀ i j, Adjacent idx i j → ∀ k, i < k → k < j → ∀ a b p,
+        ls[i]? = some a → ls[j]? = some b → ls[k]? = some p → distSegSq a b p ≤ t * t :=
+  dp_error_bound_run' t ls out area h
+
+theorem dp_idempotent_run (t : α) (ls out : List (Pt α)) (area : Bool)
+    (h : runSimplify (dpS t) ls area = .ok out) : runSimplify (dpS t) out area = .ok out :=
+  dp_idempotent_run' t ls out area h
+
+theorem dp_nested_run (t₁ t₂ : α) (h0 : 0 ≤ t₁) (h12 : t₁ ≤ t₂) (ls o₁ o₂ : List (Pt α)) (area : Bool)
+    (h₁ : runSimplify (dpS t₁) ls area = .ok o₁) (h₂ : runSimplify (dpS t₂) ls area = .ok o₂) :
+    o₂.Sublist o₁ := dp_nested_run' t₁ t₂ h0 h12 ls o₁ o₂ area h₁ h₂
+
+theorem vis_nested_run (thr₁ thr₂ : Option α) (k₁ k₂ : Nat) (ls o₁ o₂ : List (Pt α)) (area : Bool)
+    (ht : aLe thr₁ thr₂ = true) (hk : visToKeep k₂ ls area ≤ visToKeep k₁ ls area)
+    (h₁ : runSimplify (visS thr₁ k₁) ls area = .ok o₁) (h₂ : runSimplify (visS thr₂ k₂) ls area = .ok o₂) :
+    o₂.Sublist o₁ := vis_nested_run' thr₁ thr₂ k₁ k₂ ls o₁ o₂ area ht hk h₁ h₂
+
+/-- … and over an ordered field the model never panics: there the two are equal outright. -/
+theorem vis_twin_is_model (thr : Option α) (toKeep : Nat) (hk : toKeep = 0 ∨ 2 ≤ toKeep) (ls : List (Pt α)) (area : Bool) :
+    visSimplifyP none aMax thr toKeep ls area = visSimplify thr toKeep ls area :=
+  vis_twin_is_model' thr toKeep hk ls area
 
 /-! ### Visvalingam: the hand-rolled heap -/
 
@@ -225,5 +340,13 @@ example :
     visSimplify (some (1 : Int)) 0 [⟨0, 0⟩, ⟨1, 3⟩, ⟨2, 0⟩, ⟨3, 0⟩, ⟨4, 0⟩] false = .ok [⟨0, 0⟩, ⟨1, 3⟩, ⟨2, 0⟩, ⟨4, 0⟩] ∧
     radialSimplify distSq (4 : Int) [⟨0, 0⟩, ⟨1, 0⟩, ⟨3, 0⟩, ⟨4, 0⟩] = .ok [⟨0, 0⟩, ⟨3, 0⟩, ⟨4, 0⟩] ∧
     multiPolygon (dpS (1 : Int)) [[]] = .ok [] := by decide
+
+/-- Non-vacuity of the exact statements: the default counts on a closed and on an open ring; a polygon
+    whose FIRST hole collapses (and is dropped) while the second survives; keep-2 on a closed ring. -/
+example :
+    visToKeep 0 [(⟨0, 0⟩ : Pt Int), ⟨1, 0⟩, ⟨0, 0⟩] true = 4 ∧ visToKeep 0 [(⟨0, 0⟩ : Pt Int), ⟨1, 0⟩, ⟨2, 0⟩] true = 3 ∧
+    polygon (dpS (1 : Int)) [[⟨0, 0⟩, ⟨9, 0⟩, ⟨9, 9⟩, ⟨0, 0⟩], [⟨1, 1⟩, ⟨2, 1⟩, ⟨1, 1⟩], [⟨3, 1⟩, ⟨6, 1⟩, ⟨6, 4⟩, ⟨3, 1⟩]] =
+      .ok [[⟨0, 0⟩, ⟨9, 0⟩, ⟨9, 9⟩, ⟨0, 0⟩], [⟨3, 1⟩, ⟨6, 1⟩, ⟨6, 4⟩, ⟨3, 1⟩]] ∧
+    ring (visS (none : Option Int) 2) [⟨0, 0⟩, ⟨4, 0⟩, ⟨4, 4⟩, ⟨0, 4⟩, ⟨0, 0⟩] = .ok [⟨0, 0⟩, ⟨0, 0⟩] := by decide
 
 end Orb.Simplify
